@@ -14,4 +14,5 @@ pub mod eng_tamper;
 pub mod eng_format;
 pub mod eng_fault;
 pub mod eng_conf;
+pub mod eng_cli;
 pub mod alloc;
